@@ -47,7 +47,7 @@ func genCase(t *rapid.T) Case {
 	c := Case{Ops: []Op{{Kind: "add"}, {Kind: "add"}}}
 	for i := 0; i < n; i++ {
 		c.Ops = append(c.Ops, Op{
-			Kind:   rapid.SampledFrom([]string{"add", "add", "remove", "remove", "terminate", "call", "call", "call", "rawcall", "rawcall", "subscribe", "removebad", "race", "race", "busyremove", "subrace"}).Draw(t, "kind"),
+			Kind:   rapid.SampledFrom([]string{"add", "add", "remove", "remove", "terminate", "terminate", "call", "call", "call", "rawcall", "rawcall", "subscribe", "removebad", "race", "race", "busyremove", "subrace", "readd", "readd"}).Draw(t, "kind"),
 			Target: rapid.IntRange(0, 12).Draw(t, "target"),
 		})
 	}
@@ -63,6 +63,12 @@ type obj struct {
 	generic bus.ObjectProxy
 	live    bool
 	subs    []chan string
+	// actor: what was given to Service.Add. An object which is gone may be added
+	// again (op "readd"): a second life under a new identifier, a second obj
+	// here; baseTerm is how often its termination hook had run before this life
+	actor    bus.Actor
+	baseTerm int32
+	readded  bool // this life is over and the actor lives again elsewhere
 }
 
 const bound = 10 * time.Second
@@ -127,11 +133,11 @@ func checkCase(c Case) error {
 	// afterRemoval checks the clauses that hold once an object is gone.
 	afterRemoval := func(o *obj, how string) error {
 		deadline := time.Now().Add(bound)
-		for atomic.LoadInt32(&o.probe.Terminated) == 0 && time.Now().Before(deadline) {
+		for atomic.LoadInt32(&o.probe.Terminated) <= o.baseTerm && time.Now().Before(deadline) {
 			time.Sleep(100 * time.Microsecond)
 		}
-		if n := atomic.LoadInt32(&o.probe.Terminated); n != 1 {
-			return vt.Violationf("C16:terminate-count", "object %d removed by %s: termination hook ran %d times", o.id, how, n)
+		if n := atomic.LoadInt32(&o.probe.Terminated) - o.baseTerm; n != 1 {
+			return vt.Violationf("C16:terminate-count", "object %d removed by %s: termination hook ran %d times (earlier lives of the same object: %d)", o.id, how, n, o.baseTerm)
 		}
 		for i, ch := range o.subs {
 			if !waitClosed(ch, bound) {
@@ -195,9 +201,28 @@ func checkCase(c Case) error {
 			o = objs[op.Target%len(objs)]
 		}
 		switch op.Kind {
-		case "add":
+		case "add", "readd":
 			name := fmt.Sprintf("o%d", len(objs))
-			id, p, err := env.AddPongObject(svc, name)
+			p, actor := probe.NewPong(name, env.Journal)
+			base := int32(0)
+			if op.Kind == "readd" {
+				// an object which is gone is added again: the same actor, a new life
+				var gone []*obj
+				for _, x := range objs {
+					if !x.live && !x.readded {
+						gone = append(gone, x)
+					}
+				}
+				if len(gone) == 0 {
+					continue
+				}
+				prev := gone[op.Target%len(gone)]
+				prev.readded = true
+				name, p, actor = prev.name, prev.probe, prev.actor
+				base = atomic.LoadInt32(&p.Terminated)
+				vt.Label("object-added-again")
+			}
+			id, err := svc.Add(actor)
 			if err != nil {
 				return vt.Violationf("C16:add-error", "step %d: Add failed: %v", i, err)
 			}
@@ -213,7 +238,7 @@ func checkCase(c Case) error {
 			if err != nil {
 				return vt.Violationf("C16:new-object-unreachable", "step %d: Proxy(Svc,%d) of a freshly added object: %v", i, id, err)
 			}
-			objs = append(objs, &obj{id: id, name: name, probe: p, proxy: pong.MakePingPong(sess, px), generic: bus.MakeObject(px), live: true})
+			objs = append(objs, &obj{id: id, name: name, probe: p, proxy: pong.MakePingPong(sess, px), generic: bus.MakeObject(px), live: true, actor: actor, baseTerm: base})
 		case "remove":
 			if o == nil {
 				continue
@@ -483,11 +508,16 @@ func checkCase(c Case) error {
 			if err := call(o, i%2 == 0, len(c.Ops)); err != nil {
 				return err
 			}
-			if n := atomic.LoadInt32(&o.probe.Terminated); n != 0 {
-				return vt.Violationf("C16:live-object-terminated", "object %d is live but its termination hook ran %d times", o.id, n)
+		}
+		// the termination hook of an actor has run once per life which is over
+		ended := int32(0)
+		for _, x := range objs {
+			if x.probe == o.probe && !x.live {
+				ended++
 			}
-		} else if n := atomic.LoadInt32(&o.probe.Terminated); n != 1 {
-			return vt.Violationf("C16:terminate-count", "removed object %d: termination hook ran %d times", o.id, n)
+		}
+		if n := atomic.LoadInt32(&o.probe.Terminated); n != ended {
+			return vt.Violationf("C16:terminate-count", "object %d (live=%v): its termination hook ran %d times, %d of its lives are over", o.id, o.live, n, ended)
 		}
 	}
 	// the main object is an object like the others: it can be removed too
